@@ -6,6 +6,7 @@ import Afkak.Monitor.C08
 import Afkak.Monitor.C07
 import Afkak.Monitor.C11
 import Afkak.Monitor.C20
+import Afkak.ClientCompose
 import Driver.Util
 /-!
 Line-protocol driver for the `client` component (exe `model_client`).
@@ -170,6 +171,12 @@ def monStep (ws : List String) : Option (List String) :=
   | "mon-invalidate" :: g :: examined :: rest => do
     let after ← parseCache rest
     some (verdict (Afkak.Monitor.C08.invalidateOk after (parseGroup g) (← parseKeys examined)))
+  | "mon-kept" :: rest =>
+    -- client-A (C08): no broker forgotten between two consecutive dumps
+    if rest.length != 12 then none else do
+    let before ← parseCache (rest.take 6)
+    let after ← parseCache (rest.drop 6)
+    some (verdict (Afkak.Monitor.C08.brokersKept before after))
   | "mon-allinvalid" :: rest => do
     let c ← parseCache rest
     some (verdict (Afkak.Monitor.C08.allInvalid c))
@@ -402,6 +409,8 @@ def parseTItem : List String → Option TItem
   | ["t-bootgone", j] => do some (.bootGone (← j.toNat?))
   | "t-net" :: rest => some (.net (" ".intercalate rest))
   | ["t-exc", c] => some (.exc c)
+  | ["t-bcidle", b] => do some (.bcIdle (← b.toNat?))
+  | ["t-quiet"] => some .netQuiet
   | _ => none
 
 def failsLine (fs : List String) : List String :=
@@ -426,12 +435,12 @@ def netStep (n : NetSt) (ws : List String) : Option (NetSt × List String) :=
   | ["t-reset"] => some ({ n with trace := [] }, ["ok"])
   | ["mon-c07"] => some (n, failsLine ((Afkak.Monitor.C07.run n.cfg n.trace.reverse).fails ++ (Afkak.Monitor.C07.run n.cfg n.trace.reverse).staleFails))
   | ["mon-c11"] => some (n, failsLine ((Afkak.Monitor.C11.run n.cfg n.trace.reverse).fails ++ (Afkak.Monitor.C11.run n.cfg n.trace.reverse).extraFails))
-  | ["mon-c20"] => some (n, failsLine ((Afkak.Monitor.C20.run n.trace.reverse).fails ++ (Afkak.Monitor.C20.run n.trace.reverse).bootFails))
+  | ["mon-c20"] => some (n, failsLine ((Afkak.Monitor.C20.run n.trace.reverse).fails ++ (Afkak.Monitor.C20.run n.trace.reverse).connFails ++ (Afkak.Monitor.C20.run n.trace.reverse).bootFails))
   -- the monitors on the MODEL's own trace of the events replayed so far (what the soundness statements
   -- `Cxx_model_traces_satisfy_monitor` are about)
   | ["mon-c07-model"] => some (n, failsLine (Afkak.Monitor.C07.run n.cfg n.mtrace.reverse).fails)
   | ["mon-c11-model"] => some (n, failsLine (Afkak.Monitor.C11.run n.cfg n.mtrace.reverse).fails)
-  | ["mon-c20-model"] => some (n, failsLine (Afkak.Monitor.C20.run n.mtrace.reverse).fails)
+  | ["mon-c20-model"] => some (n, failsLine ((Afkak.Monitor.C20.run n.mtrace.reverse).fails ++ (Afkak.Monitor.C20.run n.mtrace.reverse).connFails))
   | ["mon-iface"] => some (n, failsLine (Afkak.ClientIface.run n.trace.reverse).fails)
   | ["ndump"] =>
     some (n, dump n.st.cache ++
@@ -452,11 +461,80 @@ def netStep (n : NetSt) (ws : List String) : Option (NetSt × List String) :=
     some ({ n with st := st', mtrace := items.reverse ++ n.mtrace }, obs.map showOb)
   | [] => none
 
+/-! ### ---- client-B: the client composed with its broker clients (`Afkak/ClientCompose.lean`) ----
+`x-cfg <timeout> <dot> <hosts> <retry>` resets; then one request per NETWORK-level event of the real stack:
+`x-api <client event line incl. sh=/sd=/rd=>` · `x-connok <b> [<env>…]` · `x-connfail <b>` · `x-lost <b> [<env>]` ·
+`x-reply <b> <k> <payload tokens> [sh=…]` · `x-advance <dt> <first b,b|-> <after b,b|-> [sh=…]` · `x-syncrefuse <n>`; an `<env>` of
+`x-connok` is `-` or `sh=…;sd=…`.  The answer lists what the composed model observes at BOTH boundaries:
+`cl <client observation>` · `bc <b> <broker-client observation>` · `connect <b> <host> <port>` · `mismatch <why>`
+(the two models disagree at the interface) · `bad-op <why>`. -/
+
+def showBcOb : Afkak.BrokerClient.Ob → String
+  | .connect h p => s!"connect {h} {p}"
+  | .setTimer d => s!"setTimer {showRat d}"
+  | .cancelTimer => "cancelTimer"
+  | .cancelConnect => "cancelConnect"
+  | .write _ _ id => s!"write {id}"
+  | .writeLost _ _ id => s!"writeLost {id}"
+  | .lose _ => "lose"
+  | .fire _ id r => s!"fire {id} " ++ (match r with
+      | .ok _ => "ok" | .none => "none" | .err .cancelled => "cancelled" | .err .clientError => "clientClosed" | .err .writeError => "writeError")
+  | .down => "down"
+  | .raiseDup id => s!"raiseDup {id}"
+  | .raiseAssert => "raiseAssert"
+  | .raiseUnderflow => "raiseUnderflow"
+  | .unexpected id => s!"unexpected {id}"
+  | .badOp => "bad-op"
+
+def showXOb : Afkak.ClientCompose.Ob → String
+  | .cl o => "cl " ++ showOb o
+  | .bc b o => s!"bc {b} " ++ showBcOb o
+  | .connect b h p => s!"connect {b} {h} {p}"
+  | .mismatch w => "mismatch " ++ w
+  | .badOp w => "bad-op " ++ w
+
+def parseEnvTok (t : String) : Option Env :=
+  if t == "-" then some {} else (splitEnv (t.splitOn ";")).bind (fun r => if r.1.isEmpty then some r.2 else none)
+
+structure XSt where
+  cfg : Afkak.ClientCompose.Cfg := { cl := { timeout := 10, disconnectOnTimeout := false, bootHosts := [] }, bc := ⟨fun _ => 1/2⟩ }
+  st : Afkak.ClientCompose.St := {}
+
+def xStep (x : XSt) (ws : List String) : Option (XSt × List String) :=
+  let go (e : Afkak.ClientCompose.Ev) : Option (XSt × List String) :=
+    let r := Afkak.ClientCompose.step x.cfg x.st e
+    some ({ x with st := r.1 }, r.2.map showXOb)
+  match ws with
+  | ["x-cfg", t, dot, hosts, retry] => do
+    let rd ← parseRat retry
+    let cl : Cfg := { timeout := ← parseRat t, disconnectOnTimeout := ← parseBool dot,
+                      bootHosts := ← (splitList "," hosts).mapM parseHostPort, retryDelay := rd }
+    some ({ cfg := { cl := cl, bc := ⟨fun _ => rd⟩ }, st := {} }, ["ok"])
+  | "x-api" :: rest => do
+    let (ws', env) ← splitEnv rest
+    go (.api env (← parseEv ws'))
+  | "x-connok" :: b :: envs => do go (.connOk (← b.toNat?) (← envs.mapM parseEnvTok))
+  | ["x-connfail", b] => do go (.connFail (← b.toNat?))
+  | "x-lost" :: b :: rest => do
+    let (_, env) ← splitEnv rest
+    go (.lost (← b.toNat?) env)
+  | "x-reply" :: b :: k :: rest => do
+    let (ws', env) ← splitEnv rest
+    go (.reply (← b.toNat?) (← k.toNat?) (← parsePayload ws') env)
+  | "x-advance" :: dt :: first :: after :: rest => do
+    let (_, env) ← splitEnv rest
+    go (.advance (← parseRat dt) (← (splitList "," first).mapM (·.toNat?)) (← (splitList "," after).mapM (·.toNat?)) env)
+  | ["x-syncrefuse", n] => do go (.setSyncRefuse (← n.toNat?))
+  -- which broker-client components are closed (the open statement C20_composed_close_closes_every_broker_client)
+  | ["x-closed"] => some (x, ["closed " ++ showList (x.st.bcs.map (fun b => if b.closed then "1" else "0"))])
+  | _ => none
+
 end Net
 
 structure St where
   cache : Cache := {}
   net : NetSt := {}
+  x : XSt := {}
 
 def cacheStep (c : Cache) (ws : List String) : Option (Cache × List String) :=
   match ws with
@@ -500,9 +578,11 @@ def step (st : St) (line : String) : St × List String :=
   | some (c, out) => ({ st with cache := c }, out)
   | none => match monStep ws with
     | some out => (st, out)
-    | none => match netStep st.net ws with
-      | some (n, out) => ({ st with net := n }, out)
-      | none => (st, ["bad-op"])
+    | none => match (match ws with | w :: _ => if w.startsWith "x-" then xStep st.x ws else none | [] => none) with
+      | some (x, out) => ({ st with x := x }, out)
+      | none => match netStep st.net ws with
+        | some (n, out) => ({ st with net := n }, out)
+        | none => (st, ["bad-op"])
 
 end Driver.Client
 
